@@ -151,8 +151,15 @@ fn stub_paint_minus_and_plus_lines(
     }
 }
 
-fn run<const K: usize>() {
-    // ---- partial Config
+// One step of the buffering discipline from a representative buffer state: M removed lines and P
+// added lines are already buffered (ids 0..M, M..M+P, in input order; PREV is the kind of the
+// previous line: 0 unchanged / unrecognised, 1 removed, 2 added), then ONE more hunk line of
+// symbolic kind arrives, then the hunk ends. Every line must reach the output exactly once, in
+// input order. The reachable buffer states are: nothing buffered after an unchanged line; only
+// removed lines after a removed line; at least one added line after an added line - one harness
+// per small instance. (K lines of symbolic kinds in one harness: one line finishes in 157 s, two
+// run out of 24 GB - the buffers then have symbolic lengths.)
+fn step<const M: usize, const P: usize, const PREV: u8>() {
     let mut cfg_mem = MaybeUninit::<Config>::uninit();
     let cp = cfg_mem.as_mut_ptr();
     let buf_size: usize = kani::any();
@@ -164,61 +171,65 @@ fn run<const K: usize>() {
         addr_of_mut!((*cp).diff_stat_align_width).write(0);
     }
     let config: &Config = unsafe { &*cp };
-    // ---- partial StateMachine
     let mut sm_mem = MaybeUninit::<StateMachine>::uninit();
     let sp = sm_mem.as_mut_ptr();
+    let dt = |id: usize| DiffType::Combined(MergeParents::Number(id), InMergeConflict::No);
+    let mut minus: Vec<(String, State)> = Vec::with_capacity(MAXBUF + 1);
+    let mut plus: Vec<(String, State)> = Vec::with_capacity(MAXBUF + 1);
+    for i in 0..M {
+        minus.push((String::new(), State::HunkMinus(dt(i), None)));
+    }
+    for i in 0..P {
+        plus.push((String::new(), State::HunkPlus(dt(M + i), None)));
+    }
+    let prev = match PREV {
+        0 => State::HunkZero(DiffType::Unified, None),
+        1 => State::HunkMinus(dt(M - 1), None),
+        _ => State::HunkPlus(dt(M + P - 1), None),
+    };
     unsafe {
         addr_of_mut!((*sp).line).write(String::new());
         addr_of_mut!((*sp).raw_line).write(String::new());
-        addr_of_mut!((*sp).state).write(State::HunkZero(DiffType::Unified, None));
+        addr_of_mut!((*sp).state).write(prev);
         addr_of_mut!((*sp).config).write(config);
         addr_of_mut!((*sp).minus_line_counter).write(AmbiguousDiffMinusCounter::not_needed());
-        addr_of_mut!((*sp).painter.minus_lines).write(Vec::with_capacity(MAXBUF));
-        addr_of_mut!((*sp).painter.plus_lines).write(Vec::with_capacity(MAXBUF));
+        addr_of_mut!((*sp).painter.minus_lines).write(minus);
+        addr_of_mut!((*sp).painter.plus_lines).write(plus);
         addr_of_mut!((*sp).painter.output_buffer).write(String::new());
         addr_of_mut!((*sp).painter.config).write(config);
     }
     let sm: &mut StateMachine = unsafe { &mut *sp };
-    let mut expected = 0usize;
-    let (mut n_minus, mut n_plus, mut n_zero) = (0usize, 0usize, 0usize);
-    let mut k = 0;
-    while k < K {
-        let kind: usize = kani::any();
-        kani::assume(kind <= 3);
-        unsafe {
-            addr_of_mut!((*cp).max_syntax_length).write(kind);
-            addr_of_mut!((*cp).diff_stat_align_width).write(k);
-        }
-        let handled = sm.handle_hunk_line();
-        assert!(matches!(handled, Ok(true)), "inside a hunk every line is claimed by the hunk handler");
-        expected = expected * 8 + (k + 1);
-        match kind {
-            0 => n_minus += 1,
-            1 => n_plus += 1,
-            2 => n_zero += 1,
-            _ => {}
-        }
-        k += 1;
+    let kind: usize = kani::any();
+    kani::assume(kind <= 3);
+    unsafe {
+        addr_of_mut!((*cp).max_syntax_length).write(kind);
+        addr_of_mut!((*cp).diff_stat_align_width).write(M + P);
     }
+    let handled = sm.handle_hunk_line();
+    assert!(matches!(handled, Ok(true)), "inside a hunk every line is claimed by the hunk handler");
     // what the state machine does when the hunk ends (next header, end of input)
     sm.painter.paint_buffered_minus_and_plus_lines();
+    let mut expected = 0usize;
+    let mut k = 0;
+    while k <= M + P {
+        expected = expected * 8 + (k + 1);
+        k += 1;
+    }
     let log = unsafe { addr_of!((*cp).max_line_length).read() };
     assert!(log == expected, "every hunk line reaches the output exactly once, in input order");
     assert!(sm.painter.minus_lines.is_empty() && sm.painter.plus_lines.is_empty(), "nothing is left in the buffers after the flush");
-    kani::cover!(K < 3 || (n_minus >= 1 && n_plus >= 1 && n_zero >= 1), "removed, added and unchanged lines in one run");
-    kani::cover!(K < 3 || (n_plus >= 1 && n_minus >= 2), "an added line and two removed lines");
-    kani::cover!(K < 2 || (n_minus >= 1 && n_plus >= 1), "a removed and an added line");
-    kani::cover!(buf_size == 0, "every line flushed early");
+    kani::cover!(kind == 0, "a removed line arrives");
+    kani::cover!(kind == 1, "an added line arrives");
+    kani::cover!(kind == 2, "an unchanged line arrives");
+    kani::cover!(kind == 3, "an unrecognised line arrives");
+    kani::cover!(buf_size == 0, "the buffers are flushed before every line");
     kani::cover!(true, "end of harness reached");
-    std::mem::forget(handled_dummy());
 }
 
-fn handled_dummy() {}
-
-macro_rules! seq_harness {
-    ($name:ident, $k:expr, $unwind:expr) => {
+macro_rules! step_harness {
+    ($name:ident, $m:expr, $p:expr, $prev:expr) => {
         #[kani::proof]
-        #[kani::unwind($unwind)]
+        #[kani::unwind(6)]
         #[kani::stub(new_line_state, stub_new_line_state)]
         #[kani::stub(crate::paint::prepare, stub_prepare)]
         #[kani::stub(crate::utils::tabs::expand, stub_expand)]
@@ -229,14 +240,18 @@ macro_rules! seq_harness {
         #[kani::stub(crate::paint::Painter::paint_zero_line, stub_paint_zero_line)]
         #[kani::stub(crate::paint::paint_minus_and_plus_lines, stub_paint_minus_and_plus_lines)]
         fn $name() {
-            run::<$k>();
+            step::<$m, $p, $prev>();
         }
     };
 }
 
-seq_harness!(c01_hunk_lines_1, 1, 5);
-seq_harness!(c01_hunk_lines_2, 2, 5);
-seq_harness!(c01_hunk_lines_3, 3, 5);
+step_harness!(c01_buffer_step_0_0_zero, 0, 0, 0);
+step_harness!(c01_buffer_step_1_0_minus, 1, 0, 1);
+step_harness!(c01_buffer_step_2_0_minus, 2, 0, 1);
+step_harness!(c01_buffer_step_0_1_plus, 0, 1, 2);
+step_harness!(c01_buffer_step_1_1_plus, 1, 1, 2);
+step_harness!(c01_buffer_step_2_1_plus, 2, 1, 2);
+step_harness!(c01_buffer_step_1_2_plus, 1, 2, 2);
 
 // ------------------------------------------------------------------------------------------------
 // Classification of a hunk line (`new_line_state`): which lines are removed / added / unchanged /
